@@ -7,6 +7,7 @@ package zzverif
 // google/fhir JSON).  A failing call must leave resource and value untouched.
 
 import (
+	"unicode"
 	"encoding/json"
 	"bytes"
 	"errors"
@@ -38,6 +39,16 @@ type c18Op struct {
 	Index  int    `json:"index"`
 	Pkg    bool   `json:"pkg"`
 	Seed   int    `json:"seed,omitempty"` // extra entropy for the value (codes stage)
+	// ExtURL: the url of the extension-url filter ("" = http://example.org/a): a url some extension
+	// below the target carries, or a near miss of one (other case, a trailing slash, a prefix)
+	ExtURL string `json:"ext_url,omitempty"`
+}
+
+func (op c18Op) extURL() string {
+	if op.ExtURL == "" {
+		return "http://example.org/a"
+	}
+	return op.ExtURL
 }
 
 type c18Case struct {
@@ -68,8 +79,52 @@ func c18GenOp(s Src, root *Node) c18Op {
 		op.Steps = c02IndexedSteps(n, mask)
 	}
 	op.Filter = pickOne(s, []string{"", "", "", "", "first", "last", "where-true", "where-false", "index0", "extension-url", "where-id", "tail", "where-now", "where-not-now", "where-var", "where-noid-empty", "where-noid-not", "where-noid-count", "where-noext-count"})
+	// the urls of the extensions the target carries: the filter names one of them, or nearly
+	var extURLs []string
+	for _, k := range n.Kids["extension"] {
+		if x, _ := k.Msg.(*dtpb.Extension); x != nil {
+			if u := x.GetUrl().GetValue(); u != "" && !strings.ContainsAny(u, "'\\") {
+				extURLs = append(extURLs, u)
+			}
+		}
+	}
+	if len(extURLs) > 0 && s.Prob(35) {
+		op.Filter = "extension-url"
+	}
+	if op.Filter == "extension-url" && len(extURLs) > 0 && s.Prob(80) {
+		u := pickOne(s, extURLs)
+		switch s.Intn(7) {
+		case 0, 1:
+			op.ExtURL = u
+		case 2:
+			op.ExtURL = strings.ToUpper(u)
+		case 3:
+			op.ExtURL = strings.ToUpper(u[:1]) + u[1:]
+		case 4:
+			op.ExtURL = u + "/"
+		case 5:
+			op.ExtURL = u[:len(u)-1]
+		default:
+			// one letter in the other case
+			rs := []rune(u)
+			i := s.Intn(len(rs))
+			if unicode.IsUpper(rs[i]) {
+				rs[i] = unicode.ToLower(rs[i])
+			} else {
+				rs[i] = unicode.ToUpper(rs[i])
+			}
+			op.ExtURL = string(rs)
+		}
+	}
 	op.Value = pickOne(s, []string{"same", "same", "same", "sibling", "wrong", "nil", "clone-of-target", "namesake"})
 	op.Index = s.Range(-1, 4)
+	// a decorated primitive (it carries an id or extensions of its own) is substituted as a whole:
+	// aim replace operations at those, with a value of the element's type or of a sibling type
+	if n != root && n.Prim && n.Msg != nil && (len(n.Kids["id"]) > 0 || len(n.Kids["extension"]) > 0) && s.Prob(45) {
+		op.Op, op.Filter = "replace", ""
+		op.Steps = c02IndexedSteps(n, 0xffff)
+		op.Value = pickOne(s, []string{"same", "sibling", "sibling"})
+	}
 	if op.Op == "insert" && s.Prob(75) {
 		// aim at a whole list: the items of one repeated field of one parent, last step un-indexed
 		var lists []*Node
@@ -286,7 +341,7 @@ func c18Path(typ string, op c18Op) string {
 	case "index0":
 		p += "[0]"
 	case "extension-url":
-		p += ".extension('http://example.org/a')"
+		p += ".extension(" + quoteFP(op.extURL()) + ")"
 	case "where-id":
 		p += ".where(id.exists())"
 	// criteria that compute a value from an empty sub-collection
@@ -341,7 +396,7 @@ func c18Targets(root *Node, op c18Op) (nodes []*Node, ok bool) {
 		var out []*Node
 		for _, n := range nodes {
 			for _, k := range n.Kids["extension"] {
-				if u, _ := k.Msg.(*dtpb.Extension); u != nil && u.GetUrl().GetValue() == "http://example.org/a" {
+				if u, _ := k.Msg.(*dtpb.Extension); u != nil && u.GetUrl().GetValue() == op.extURL() {
 					out = append(out, k)
 				}
 			}
